@@ -11,14 +11,15 @@ def run(tier, rng, C):
     cases = []
     n = 0
     for L in range(0, maxlen + 1):
-        for tup in itertools.product(ALPHA, repeat=L):
+        # the closing bracket joins the alphabet for all but the longest strings
+        for tup in itertools.product(ALPHA + ([']'] if L < maxlen else []), repeat=L):
             s = ''.join(tup)
             cid = 't%07d' % n
             n += 1
             cases.append({'id': cid, 'line': '%s token S%s' % (cid, hx(s)), 'show': repr(s),
                           'nontrivial': ('${' in s or '$[' in s or '\\' in s)})
     # random long strings with nesting and multi-byte characters, rendered against a root
-    pieces = ['${a}', '${b:c}', '${a${d}}', '\\${a}', '\\\\${a}', '\\$[x]', '$[x]', '}', '{', '$', '\\', 'é', 'x:y', '${', '\\}', '${a\\}b}']
+    pieces = ['${a}', '${b:c}', '${a${d}}', '\\${a}', '\\\\${a}', '\\$[x]', '$[x]', '}', '{', '$', '\\', 'é', 'x:y', '${', '\\}', '${a\\}b}', ']', '$[', '$[ x == ${a} ]', ' ']
     nr = 2000 if tier == 'quick' else 50000
     for i in range(nr):
         s = ''.join(rng.choice(pieces) for _ in range(rng.randint(1, 8)))
@@ -41,7 +42,7 @@ def run(tier, rng, C):
                               'reason': 'string without a reference marker is not passed through: ' + o[:100],
                               'impl': o[:200], 'size': len(c['line'])})
         return fails
-    rule = ('exhaustive: every string of length <= %d over {$ { } [ \\ : a} (parse tree through the Token hook, compared with the '
+    rule = ('exhaustive: every string of length <= %d over {$ { } [ \\ : a} (and ] below that length) (parse tree through the Token hook, compared with the '
             'model parser); %d random concatenations of reference / escape / brace pieces with multi-byte characters, parse '
             'tree and rendered text; non-trivial = contains a marker or a backslash' % (maxlen, nr))
     return C.standard_run(cases, rule, key_fn=lambda c, m, i, r: 'parse-differs', extra_oracle=oracle, exhaustive=True)
